@@ -125,12 +125,90 @@ class ModuleInfo:
         self.relpath = relpath
         self.src = src
         self.sha256 = hashlib.sha256(src.encode()).hexdigest()
-        self.tree = _fold_return_temporaries(ast.parse(src, filename=path))
+        self.tree = _fold_return_temporaries(_normalise_blocks(ast.parse(src, filename=path)))
         self.imports = {}  # local name -> dotted name
         self.functions = {}
         self.classes = {}
         self.constants = {}  # name -> value expr (module-level simple assigns)
         self.all_assign_targets = {}  # name -> [Assign nodes] at module level
+
+
+def _blocks(tree):
+    for holder in ast.walk(tree):
+        for field in ("body", "orelse", "finalbody"):
+            blk = getattr(holder, field, None)
+            if isinstance(blk, list) and blk and isinstance(blk[0], ast.stmt):
+                yield holder, field, blk
+        if isinstance(holder, ast.Try):
+            for h in holder.handlers:
+                pass  # handler bodies are reached through ast.walk (ExceptHandler has .body)
+
+
+def _leaves(stmts):
+    return bool(stmts) and isinstance(stmts[-1], (ast.Return, ast.Raise, ast.Continue, ast.Break))
+
+
+def _normalise_blocks(tree):
+    """Spelling normalisations applied to every module before analysis (positions of the original nodes are kept):
+      * ``a, b = X, Y`` with plain-name targets and Y not reading a  ->  ``a = X; b = Y``;
+      * ``if c: ...leave  else: REST``  ->  ``if c: ...leave`` followed by REST   (leave = return / raise / continue / break);
+      * in a loop body ``if c: continue`` followed by REST  ->  ``if not c: REST``.
+    Rules then meet one statement shape for each of these equivalent spellings."""
+    changed = True
+    rounds = 0
+    while changed and rounds < 20:
+        changed = False
+        rounds += 1
+        for holder, field, blk in list(_blocks(tree)):
+            out = []
+            k = 0
+            while k < len(blk):
+                st = blk[k]
+                if isinstance(st, ast.Assign) and len(st.targets) == 1 and isinstance(st.targets[0], ast.Tuple) and isinstance(st.value, ast.Tuple) \
+                        and len(st.targets[0].elts) == len(st.value.elts) >= 2 and all(isinstance(e, ast.Name) for e in st.targets[0].elts) \
+                        and not any(isinstance(v, ast.Starred) for v in st.value.elts):
+                    names = [e.id for e in st.targets[0].elts]
+                    indep = len(set(names)) == len(names)
+                    for i, v in enumerate(st.value.elts):
+                        used = {n.id for n in ast.walk(v) if isinstance(n, ast.Name)}
+                        if used & set(names[:i]):
+                            indep = False
+                    if indep:
+                        for tgt, v in zip(st.targets[0].elts, st.value.elts):
+                            a = ast.Assign(targets=[tgt], value=v)
+                            ast.copy_location(a, st)
+                            a.end_lineno, a.end_col_offset = getattr(v, "end_lineno", st.end_lineno), getattr(v, "end_col_offset", st.end_col_offset)
+                            out.append(a)
+                        changed = True
+                        k += 1
+                        continue
+                if isinstance(st, ast.If) and st.orelse and _leaves(st.body):
+                    new = ast.If(test=st.test, body=st.body, orelse=[])
+                    ast.copy_location(new, st)
+                    new.end_lineno, new.end_col_offset = st.body[-1].end_lineno, st.body[-1].end_col_offset
+                    out.append(new)
+                    out.extend(st.orelse)
+                    changed = True
+                    k += 1
+                    continue
+                if isinstance(holder, (ast.For, ast.While)) and field == "body" and isinstance(st, ast.If) and not st.orelse \
+                        and len(st.body) == 1 and isinstance(st.body[0], ast.Continue) and k + 1 < len(blk):
+                    test = st.test.operand if isinstance(st.test, ast.UnaryOp) and isinstance(st.test.op, ast.Not) else ast.UnaryOp(op=ast.Not(), operand=st.test)
+                    ast.copy_location(test, st.test)
+                    ast.fix_missing_locations(test)
+                    new = ast.If(test=test, body=blk[k + 1:], orelse=[])
+                    ast.copy_location(new, st)
+                    new.end_lineno, new.end_col_offset = blk[-1].end_lineno, blk[-1].end_col_offset
+                    out.append(new)
+                    changed = True
+                    k = len(blk)
+                    continue
+                out.append(st)
+                k += 1
+            if changed:
+                setattr(holder, field, out)
+                break
+    return tree
 
 
 def _fold_return_temporaries(tree):
